@@ -17,7 +17,7 @@ import (
 // refPos -- which runUnits checks against SrcText.tla on every TLC-exported boundary.
 
 type spanStats struct {
-	Cases, Items, Nodes, Errors, Checks, MidCharSkipped, ColUndefinedSkipped, BOMSkipped, MultiLineNodes int
+	Cases, Items, Nodes, Errors, Checks, MidCharSkipped, ColUndefinedSkipped, BOMCases, MultiLineNodes int
 }
 
 func runSpans(in *bufio.Scanner, out *bufio.Writer, testdata string, workers int) error {
@@ -89,7 +89,7 @@ func runSpans(in *bufio.Scanner, out *bufio.Writer, testdata string, workers int
 		tot.Checks += r.st.Checks
 		tot.MidCharSkipped += r.st.MidCharSkipped
 		tot.ColUndefinedSkipped += r.st.ColUndefinedSkipped
-		tot.BOMSkipped += r.st.BOMSkipped
+		tot.BOMCases += r.st.BOMCases
 		tot.MultiLineNodes += r.st.MultiLineNodes
 	}
 	out.Flush()
@@ -100,12 +100,18 @@ func runSpans(in *bufio.Scanner, out *bufio.Writer, testdata string, workers int
 
 func checkSpans(data []byte, cse string) (ms []mismatch, st spanStats) {
 	st.Cases = 1
-	if bytes.HasPrefix(data, []byte{0xEF, 0xBB, 0xBF}) {
-		st.BOMSkipped = 1 // the lexer drops a byte order mark; offsets are then relative to the rest
-		return
+	input := data
+	if bytes.HasPrefix(data, bomBytes) {
+		// the byte order mark is not part of the text: reference positions and the offsets the AST
+		// reports are relative to the first byte after it
+		st.BOMCases = 1
+		data = withoutBOM(data)
 	}
 	seenClass := map[string]int{}
 	report := func(class, detail string) {
+		if st.BOMCases == 1 {
+			class = "bom:" + class
+		}
 		seenClass[class]++
 		if seenClass[class] > 1 {
 			return
@@ -136,7 +142,7 @@ func checkSpans(data []byte, cse string) (ms []mismatch, st spanStats) {
 			report("col:"+where, fmt.Sprintf("offset %d: got %d:%d want %d:%d", off, p.Line, p.Col, line, col))
 		}
 	}
-	o := doParse(data, false)
+	o := doParse(input, false)
 	if o.panicked {
 		report("parse:panic", o.site+": "+o.panicMsg)
 		return
